@@ -237,7 +237,8 @@ theorem env_used (penv : EnvMap) (cfg : KW) (ct : V) (kw : KW) (cmd : List Char)
 
 /-! ## the command handed to the shell -/
 
-/-- `" && ".join(cd-prefix ++ prefixes ++ [command])` -/
+/-- `" && ".join(cd-prefix ++ prefixes ++ [command])` — for ALL strings, verbatim (no character of a directory, prefix or
+    command is special) -/
 theorem prefix_composition (c : Ctx) (cmd : Str) :
     prefixCommands c cmd = joinWith " && ".toList
       ((if c.cwd.isEmpty then [] else ["cd ".toList ++ c.cwd]) ++ c.prefixes ++ [cmd]) := rfl
@@ -323,7 +324,11 @@ theorem any_exception_kind_restores (s : SudoCfg) (c : Ctx) (e : ExcKind) (p d :
   simp only [exec, seqOut] at h ⊢
   simp [h]
 
-/-- `sudo -S -p '<prompt>' [--preserve-env='<names>' ][-H -u <user> ]<command>` -/
+/-- `sudo -S -p '<prompt>' [--preserve-env='<names>' ][-H -u <user> ]<command>`.
+    The statement quantifies over ALL strings: prompt, user, env names and the (already prefixed) command are DATA that
+    is concatenated — no character is special, in particular not `{`, `}`, `%` or `$`, which are special to Python's
+    own string templating (`str.format`, `%`, `string.Template`).  The harness family "template tokens in every text
+    position" ties exactly this to the code (a `.format` applied AFTER the texts were spliced into the template breaks it). -/
 theorem sudo_command (prompt : Str) (user : Option Str) (names : List Str) (cmd : Str) :
     sudoCommand prompt user names cmd =
       "sudo -S -p '".toList ++ prompt ++ "' ".toList ++
@@ -351,6 +356,13 @@ example : cwdOf ["a~".toList, "x/".toList, "~".toList, "b/~".toList, "".toList] 
 example : sudoCommand "[sudo] password: ".toList (some "bob".toList) ["A".toList, "B".toList] "cd /x && ls".toList
     = "sudo -S -p '[sudo] password: ' --preserve-env='A,B' -H -u bob cd /x && ls".toList := by decide
 example : sudoCommand "P".toList none [] "ls".toList = "sudo -S -p 'P' ls".toList := by decide
+example : sudoCommand "P".toList none [] "find . -exec rm {} ;".toList = "sudo -S -p 'P' find . -exec rm {} ;".toList := by decide
+example : sudoCommand "{}> ".toList (some "{u}".toList) ["{E}".toList, "X%s".toList] "xargs -I{0} echo {0} ${HOME} {{x}} %(y)s".toList
+    = "sudo -S -p '{}> ' --preserve-env='{E},X%s' -H -u {u} xargs -I{0} echo {0} ${HOME} {{x}} %(y)s".toList := by decide
+example : (exec { prompt := "PW> ".toList, user := none, password := none } { prefixes := [], cwds := [] }
+    (.cd "/srv/{a}".toList (.pfx "export P=${P}".toList (.sudo "awk '{print $1}' f".toList none [] (.run "echo {{x}} %s".toList .done)) .done) .done)).log
+    = [.ran "sudo -S -p 'PW> ' cd /srv/{a} && export P=${P} && awk '{print $1}' f".toList,
+       .ran "cd /srv/{a} && export P=${P} && echo {{x}} %s".toList] := by decide
 example : (exec { prompt := [], user := none, password := none } { prefixes := [], cwds := [] }
     (.catch (.pfx "a".toList (.cd "/x".toList (.run "l".toList (.raise .keyboardInterrupt)) .done) (.run "never".toList .done)) (.obs (.run "z".toList .done)))).log
     = [.ran "cd /x && a && l".toList, .stacks [] [], .ran "z".toList] := by decide
